@@ -122,6 +122,10 @@ int Util::parseSize(const std::string& input, int64_t* output) {
       default:
         return -1;
     }
+    // reject NaN/inf and anything that does not fit the int64_t output
+    if (!(size + v < 9223372036854775808.0)) {
+      return -1;
+    }
     size += v;
     pos = unit_pos + 1;
   }
